@@ -99,7 +99,7 @@ Proof. split; [vm_compute; reflexivity|]. vm_compute. discriminate. Qed.
 
 (* every spelling of every well-formed program assembles to the documented encoding: nothing dropped, duplicated, reordered *)
 Theorem C11_every_spelling_assembles_to_the_encoding :
-  forall fl2 p syms, spells fl2 p syms -> wf_prog p = true -> assemble fl2 syms = Some (encode p).
+  forall fl2 ct p syms, spells fl2 p syms -> wf_prog p = true -> assemble fl2 ct syms = Some (encode p).
 Proof. exact assemble_spells. Qed.
 
 (* the decompiler's own listing is one of them; rejection of the malformed families after any well-spelled prefix; names
@@ -129,16 +129,16 @@ Check C11_names_case_insensitive.
    VT, FF, FS..US), optionally surrounded by whitespace; posts raw syms: the effect of the tokenizer loop on the raw tokens
    (names in any letter case are normalised, string values spread over several tokens are re-joined). *)
 Theorem C11_text_of_any_spelling_compiles_to_the_encoding :
-  forall fl2 p syms raw text,
+  forall fl2 ct p syms raw text,
   spells fl2 p syms -> wf_prog p = true ->
   posts raw syms -> rend raw text -> all_ascii text = true ->
-  compile_text fl2 text = Ok (encode p).
+  compile_text fl2 ct text = Ok (encode p).
 Proof. exact compile_spells. Qed.
 
 Theorem C11_whitespace_is_irrelevant :
   forall raw text1 text2,
   rend raw text1 -> rend raw text2 -> all_ascii text1 = true -> all_ascii text2 = true ->
-  get_symbols text1 = get_symbols text2 /\ forall fl2, compile_text fl2 text1 = compile_text fl2 text2.
+  get_symbols text1 = get_symbols text2 /\ forall fl2 ct, compile_text fl2 ct text1 = compile_text fl2 ct text2.
 Proof. exact whitespace_irrelevant. Qed.
 
 (* any letter-casing of any name is a raw spelling of it; comments between top-level statements do not change the code *)
@@ -169,6 +169,18 @@ Check C11_unused_definition_changes_nothing.
 Check C11_comptime_block_is_its_assembled_bytes.
 Check C11_macro_expansion.
 
+(* ~! { } comptime blocks: the assembler takes the run of a block as a parameter ct (instantiated with the VM model in the
+   correspondence run); every theorem of this file holds for every ct *)
+Definition C11_run_block_is_its_top_stack_item := @comptime_run_block.
+Definition C11_push_of_a_run_block := @push_comptime_run.
+Definition C11_run_block_with_empty_stack_adds_nothing := @comptime_run_empty.
+Definition C11_run_block_that_raises_rejects_the_source := @comptime_run_error.
+Check C11_run_block_is_its_top_stack_item.
+Check C11_run_block_that_raises_rejects_the_source.
+Print Assumptions C11_run_block_is_its_top_stack_item.
+Print Assumptions C11_push_of_a_run_block.
+Print Assumptions C11_run_block_with_empty_stack_adds_nothing.
+Print Assumptions C11_run_block_that_raises_rejects_the_source.
 Print Assumptions C11_definitions_emit_no_code.
 Print Assumptions C11_unused_definition_changes_nothing.
 Print Assumptions C11_comptime_block_is_its_assembled_bytes.
